@@ -108,6 +108,14 @@ def gate_rules(facts, rep, w, D):
         rep.ob("R07.2", tr_fn.id, "joined string: stripped on the '/' edge, raw only on the other edge", ok, "" if ok else
                "the translator joins %s onto the root %s: an argument with a leading '/' restarts at the underlying root, "
                "escaping the altroot directory" % (fmt(arg)[:50], "under starts_with('/')=%s" % sw), t.line)
+    # the translator refuses nothing by itself: its only error is the join's own (every canonical path names something
+    # below the root; a blanket rejection such as contains("..") hides legal names like "a..b" from every operation)
+    own_errs = [st.line for blk in tr_fn.blocks if not blk.cleanup for st in blk.stmts
+                if st.kind == "assign" and st.rv.kind == "agg" and st.rv.agg.get("adt") in ("error::VfsErrorKind", "error::VfsError")]
+    n += 1
+    rep.ob("R07.2", tr_fn.id, "translator builds no error of its own", not own_errs, "" if not own_errs else
+           "the translator rejects some paths itself: canonical paths that name entries below the root become unreachable "
+           "through the altroot while the underlying filesystem serves them", own_errs[0] if own_errs else tr_fn.span)
     # Ok(root.clone()) for the empty path
     for ct, _, bb in inter.ret_cases(tr_fn):
         if inter.case_polarity(ct) == "ok":
@@ -346,6 +354,19 @@ def run(facts, rep, tier, ctx):
         n = physical_gate(facts, rep, w, D)
         rep.floor("PhysicalFS gate obligations (%s)" % w.tag, n, 4)
         n = physrules.table_o_shape(facts, rep, "R07.1p", w) if not w.asyncw else 0
+    # an adapter's root is an ordinary directory of the filesystem underneath: remove_dir_all removes it like any other
+    # (Table P: every Ok return has passed remove_dir(self))
+    from ..pathrules import PathRules
+    from ..report import Report
+    for w in (World(facts, False), World(facts, True)):
+        if not w.present():
+            continue
+        scratch = Report("p")
+        PathRules(facts, w, D).table_p(scratch, "P")
+        for o in scratch.obligations:
+            d = o["key"].split("|")[2]
+            if d.startswith("remove_dir_all"):
+                rep.ob(("A/" if w.asyncw else "") + "R07.5", o["fn"], d, o["ok"], o["detail"], o["loc"])
     n = c06.joiner_rules(facts, rep, D)
     n += c06.accessor_rules(facts, rep, D)
     n += c06.single_impl_rules(facts, rep, D)
